@@ -123,7 +123,7 @@ def _overlay_facts(src, notes):
                 tgt = n.targets[0].id
                 if isinstance(n.value, ast.Call) and getattr(n.value.func, "id", None) == "paste":
                     pastes.append((n.lineno, f"{tgt} = {_unparse(n.value)}"))
-                elif tgt == "shape_e":
+                elif tgt in ("shape_e", "bbox", "shape_in_bbox"):
                     pastes.append((n.lineno, f"{tgt} = {_unparse(n.value)}"))
                 elif tgt == "opacity":
                     pastes.append((n.lineno, f"{tgt} = {_unparse(n.value)}"))
